@@ -335,11 +335,41 @@ func runC15(r *Runner, g *Gen, tier string) string {
 		op := L(batches...)
 		r.Do(op, len(op.String()) > 40, "jsonout")
 	}
+	// deep nesting: arrays, objects and alternations, every depth up to 80 and some far beyond
+	for _, depth := range append(seqInts(1, 80), 100, 127, 128, 129, 255, 256, 257, 1000) {
+		for shape := 0; shape < 3; shape++ {
+			var calls []*Sexp
+			for d := 0; d < depth; d++ {
+				if shape == 0 || (shape == 2 && d%2 == 0) {
+					calls = append(calls, A("sa"))
+				} else {
+					calls = append(calls, A("so"), L(A("n"), A(hx([]byte{byte('a' + d%26)}))))
+				}
+			}
+			calls = append(calls, L(A("s"), A(hx([]byte("x")))))
+			for d := depth - 1; d >= 0; d-- {
+				if shape == 0 || (shape == 2 && d%2 == 0) {
+					calls = append(calls, A("ea"))
+				} else {
+					calls = append(calls, A("eo"))
+				}
+			}
+			r.Do(L(A("jsonout"), L(calls...)), true, "jsonout.deep")
+		}
+	}
 	// every byte value as a one-byte string and as a name
 	for b := 0; b < 256; b++ {
 		r.Do(L(A("jsonout"), L(A("so"), L(A("n"), A(hx([]byte{byte(b)}))), L(A("s"), A(hx([]byte{byte(b)}))), A("eo"))), true, "jsonout.bytes")
 	}
-	return "random call trees (depth<=5, width<=3, empty containers, every container/scalar adjacency) with strings and names over every byte value (quotes, backslashes, control characters, U+2028/9, invalid UTF-8, a string ending in ',\\n'), int64/uint64 boundaries, finite float64/float32 specials, bools, times, raw tokens; 1-2 Done()/Reset() cycles per op on one outputter shared by the whole run; compared: the exact bytes of every Done(); number/time tokens are formatted by the harness with strconv/time directly; oracle: encoding/json accepts the output and it parses back to the call tree"
+	return "random call trees (depth<=5, width<=3, plus pure nestings of every depth up to 80 and up to 1000; empty containers, every container/scalar adjacency) with strings and names over every byte value (quotes, backslashes, control characters, U+2028/9, invalid UTF-8, a string ending in ',\\n'), int64/uint64 boundaries, finite float64/float32 specials, bools, times, raw tokens; 1-2 Done()/Reset() cycles per op on one outputter shared by the whole run; compared: the exact bytes of every Done(); number/time tokens are formatted by the harness with strconv/time directly; oracle: encoding/json accepts the output and it parses back to the call tree"
+}
+
+func seqInts(a, b int) []int {
+	var out []int
+	for i := a; i <= b; i++ {
+		out = append(out, i)
+	}
+	return out
 }
 
 // ---- C15 oracle: parse the output with encoding/json and compare with the call tree
@@ -497,6 +527,10 @@ func runC19(r *Runner, g *Gen, tier string) string {
 		r.Do(L(items...), k > 2, "internseq")
 	}
 	internLargeOps(r, scale(tier, 6, 200))
+	// thousands of distinct values through one field (beyond any table size limit one might pick)
+	for _, n := range []int{63, 64, 65, 255, 256, 257, 1023, 1025, scale(tier, 6000, 20000)} {
+		r.Do(L(A("internmany"), A(fmt.Sprint(n))), true, "internmany")
+	}
 	// concurrent: 2-3 goroutines share one interned field; deterministic schedules over the intern yield points
 	m := scale(tier, 600, 40000)
 	for i := 0; i < m; i++ {
